@@ -23,7 +23,7 @@ META = dict(
               "with gcc, ctype identity compared across FFIs and tables",
     text="Every name in ALL_PRIMITIVE_TYPES, PRIMITIVE_TO_INDEX, the C primitive_name[] table (realised through "
          "OP_PRIMITIVE n for every n < _NUM_PRIM in a hand-made _cffi_backend.FFI), the commontypes aliases and every "
-         "permutation of every C11 specifier multiset is resolved by typeof(), by a cdef typedef and as a struct field "
+         "permutation of every C11 specifier multiset, plain and with one const/volatile at every position, is resolved by typeof(), by a cdef typedef and as a struct field "
          "in an in-line FFI, an out-of-line ABI module and a compiled API module; sizeof, alignof, signedness, value "
          "category, integer range and field offsets must equal what gcc prints for the same spelling, the ctype must "
          "be the same object everywhere, and the three name<->index tables must be the same bijection.  The set is "
@@ -67,11 +67,28 @@ INCLUDES = "".join("#include <%s>\n" % h for h in HEADERS)
 FFIS = ("inline", "abi", "api")
 
 
+def _unqualified(name):
+    return " ".join(w for w in name.split() if w not in ("const", "volatile"))
+
+
 def permutations():
     out = []
     for ms in MULTISETS:
         for p in sorted(set(itertools.permutations(ms))):
             out.append(" ".join(p))
+    return out
+
+
+def qualified_permutations():
+    """Every permutation of every multiset with one 'const' or 'volatile' at every position (in front, between two
+    specifiers, at the end): C allows qualifiers anywhere among the specifiers, and the spelling still names the
+    same arithmetic type."""
+    out = []
+    for ms in MULTISETS:
+        for p in sorted(set(itertools.permutations(ms))):
+            for q in ("const", "volatile"):
+                for i in range(len(p) + 1):
+                    out.append(" ".join(p[:i] + (q,) + p[i:]))
     return out
 
 
@@ -92,6 +109,8 @@ def name_sources():
             add(k, "alias")
     for n in permutations():
         add(n, "permutation")
+    for n in qualified_permutations():
+        add(n, "qualified-permutation")
     return src
 
 
@@ -157,8 +176,8 @@ def gcc_facts(names, fields):
                 cat = "cdata" if std == "long double" else "float"   # cffi hands out long double as a cdata
             elif isbool:
                 cat = "bool"
-            elif name in CHAR_NAMES:
-                cat = CHAR_NAMES[name]
+            elif _unqualified(name) in CHAR_NAMES:
+                cat = CHAR_NAMES[_unqualified(name)]
             else:
                 cat = "int"
             facts[name] = {"size": size, "align": align, "signed": bool(neg), "category": cat,
@@ -404,7 +423,10 @@ def work(job):
         # the in-line cdef and the three typeof() must agree on whether the name exists
         vals = set(per_ffi_accept.values()) | {acc[n]}
         if len(vals) != 1:
-            bad({"kind": "acceptance_differs"}, {"name": n, "cdef": acc[n], "typeof": per_ffi_accept})
+            w = n.split()
+            qbc = any(a in ("const", "volatile") and b == "_Complex" for a, b in zip(w, w[1:]))
+            bad({"kind": "acceptance_differs", "qualifier_before_complex": qbc},
+                {"name": n, "cdef": acc[n], "typeof": per_ffi_accept})
         if routes_ok:
             cnt("names_accepted")
             cnt("category_" + gf["category"])
@@ -414,7 +436,7 @@ def work(job):
                             ("size", "align", "signed", "category", "canonical")}})
         else:
             cnt("names_rejected_everywhere")
-            if set(src[n]) - {"permutation"}:
+            if set(src[n]) - {"permutation", "qualified-permutation"}:
                 # a name from cffi's own tables must be usable
                 bad({"kind": "table_name_rejected"}, {"name": n, "sources": sorted(set(src[n]))})
 
